@@ -386,20 +386,21 @@ type vC01Node struct {
 }
 
 type vC01Rig struct {
-	mu        sync.Mutex // serialises every FSM call of every node with the observers
-	trace     []vC01Ev
-	nodes     []*vC01Node
-	logData   map[uint64][]byte
-	diverged  string
-	committer int
-	cmu       sync.Mutex
-	trailing  uint64
-	hold      map[int]chan struct{} // node -> release channel for a held Persist
-	holdArmed map[int]bool
-	heartbeat time.Duration
-	restores  int
-	overflow  bool
-	stepObs   bool
+	mu         sync.Mutex // serialises every FSM call of every node with the observers
+	trace      []vC01Ev
+	nodes      []*vC01Node
+	logData    map[uint64][]byte
+	diverged   string
+	committer  int
+	cmu        sync.Mutex
+	trailing   uint64
+	hold       map[int]chan struct{} // node -> release channel for a held Persist
+	holdArmed  map[int]bool
+	heartbeat  time.Duration
+	restores   int
+	overflow   bool
+	stepObs    bool
+	wflTimeout time.Duration
 }
 
 func (r *vC01Rig) setCommitter(i int) { r.cmu.Lock(); r.committer = i; r.cmu.Unlock() }
@@ -407,7 +408,8 @@ func (r *vC01Rig) getCommitter() int  { r.cmu.Lock(); defer r.cmu.Unlock(); retu
 
 func vC01NewRig(nNodes int, trailing uint64) *vC01Rig {
 	r := &vC01Rig{logData: map[uint64][]byte{}, trailing: trailing, hold: map[int]chan struct{}{}, holdArmed: map[int]bool{},
-		heartbeat: time.Duration(vEnvInt("VERIF_C01_HB_MS", 60)) * time.Millisecond, stepObs: true}
+		heartbeat: time.Duration(vEnvInt("VERIF_C01_HB_MS", 60)) * time.Millisecond, stepObs: true,
+		wflTimeout: 560 * time.Millisecond}
 	for i := 0; i < nNodes; i++ {
 		r.addNode()
 	}
@@ -459,7 +461,7 @@ func (r *vC01Rig) start(n *vC01Node) error {
 	}
 	cfg := &Config{}
 	cfg.Default()
-	cfg.WaitForLeaderTimeout = 560 * time.Millisecond
+	cfg.WaitForLeaderTimeout = r.wflTimeout
 	cfg.CommitRetries = 1
 	cfg.CommitRetryDelay = 20 * time.Millisecond
 	cfg.RaftConfig = r.raftConfig(n)
@@ -690,6 +692,29 @@ func (r *vC01Rig) observeLocked(n *vC01Node, cc *Consensus) {
 	r.trace = append(r.trace, ev)
 }
 
+// maxIdx: the highest Raft index any FSM has been given so far
+func (r *vC01Rig) maxIdx() uint64 {
+	r.mu.Lock()
+	defer r.mu.Unlock()
+	m := uint64(0)
+	for k := range r.logData {
+		if k > m {
+			m = k
+		}
+	}
+	return m
+}
+
+// observeReady records State() of node n right after its WaitForSync returned; idx = maxIdx when the AddPeer returned
+func (r *vC01Rig) observeReady(n *vC01Node, idx uint64) {
+	r.mu.Lock()
+	defer r.mu.Unlock()
+	k := len(r.trace)
+	r.observeLocked(n, n.cc)
+	r.trace[k].Kind = "ready"
+	r.trace[k].Idx = idx
+}
+
 func (r *vC01Rig) observeAll() {
 	for _, n := range r.nodes {
 		if n.started {
@@ -698,25 +723,34 @@ func (r *vC01Rig) observeAll() {
 	}
 }
 
-// calls waits until node n's recorder holds at least want calls (long timeout), then a short settle time, and records them.
-func (r *vC01Rig) recordCalls(n *vC01Node, want int) {
-	deadline := time.Now().Add(5 * time.Second)
+// recordCalls waits (one long, shared deadline) until every node's recorder holds at least want[node] calls, then a
+// short settle time, and records them all. The wanted counts are a waiting aid, not a verdict.
+func (r *vC01Rig) recordCalls(want []int) {
+	deadline := time.Now().Add(2500 * time.Millisecond)
 	for {
-		n.rec.mu.Lock()
-		c := len(n.rec.calls)
-		n.rec.mu.Unlock()
-		if c >= want || time.Now().After(deadline) {
+		ok := true
+		for _, n := range r.nodes {
+			n.rec.mu.Lock()
+			c := len(n.rec.calls)
+			n.rec.mu.Unlock()
+			if n.idx < len(want) && c < want[n.idx] {
+				ok = false
+			}
+		}
+		if ok || time.Now().After(deadline) {
 			break
 		}
 		time.Sleep(2 * time.Millisecond)
 	}
-	time.Sleep(15 * time.Millisecond)
-	n.rec.mu.Lock()
-	calls := append([]vC01Call{}, n.rec.calls...)
-	n.rec.mu.Unlock()
-	r.mu.Lock()
-	r.trace = append(r.trace, vC01Ev{Kind: "trk", Node: n.idx, Calls: calls})
-	r.mu.Unlock()
+	time.Sleep(20 * time.Millisecond)
+	for _, n := range r.nodes {
+		n.rec.mu.Lock()
+		calls := append([]vC01Call{}, n.rec.calls...)
+		n.rec.mu.Unlock()
+		r.mu.Lock()
+		r.trace = append(r.trace, vC01Ev{Kind: "trk", Node: n.idx, Calls: calls})
+		r.mu.Unlock()
+	}
 }
 
 // ---------------------------------------------------------------------------
